@@ -350,3 +350,54 @@ R.contract(
     on_raise={"QuicPacketBuilderStop": ["stream.receiver.stop_pending == old(stream.receiver.stop_pending)", "builder._buffer.g_pos == old(builder._buffer.g_pos)"]},
     prop=["C06"],
 )
+
+
+# ------------------------------------------------------------------------------------------------ acknowledgements (C12), expected packet number (C02)
+R.field_types("QuicPacketSpace", ack_at="Optional[float]", largest_received_time="Optional[float]", largest_received_packet="int", expected_packet_number="int", discarded="bool", ack_queue="RangeSet")
+
+# C12 soundness + timeliness, block contract on the tail of receive_datagram (reached only after the packet was opened by
+# the AEAD and its payload processed without a connection error): exactly this packet number joins the set to be
+# acknowledged; an ack-eliciting packet arms the acknowledgement deadline at now + the (advertised) delay unless an
+# earlier deadline is already pending - a pending deadline is never postponed.
+R.contract(
+    "QuicConnection.receive_datagram@record",
+    region={"anchor": "writes:ack_at"},  # the statement (with its enclosing ifs) that arms the acknowledgement deadline
+    params={"space": "QuicPacketSpace", "packet_number": "int", "now": "float", "is_ack_eliciting": "bool"},
+    # time is monotone: a deadline armed by an earlier packet lies at or before now + delay
+    assume_pre=["packet_number >= 0", "invariant_of(space.ack_queue)", "self._ack_delay >= 0", "implies(space.ack_at is not None, some(space.ack_at) <= now + self._ack_delay)"],
+    ensures=[
+        "implies(not space.discarded, forall(lambda x: space.ack_queue.gview[x] == (old(space.ack_queue.gview)[x] or x == packet_number)))",
+        "implies(space.discarded, forall(lambda x: space.ack_queue.gview[x] == old(space.ack_queue.gview)[x]) and space.ack_at == old(space.ack_at))",
+        "implies(not space.discarded and is_ack_eliciting, space.ack_at is not None and some(space.ack_at) <= now + self._ack_delay)",
+        "implies(old(space.ack_at) is not None, space.ack_at is not None and some(space.ack_at) == some(old(space.ack_at)))",
+        "implies(not is_ack_eliciting, space.ack_at == old(space.ack_at))",
+        "implies(not space.discarded, space.largest_received_packet == max(old(space.largest_received_packet), packet_number))",
+        "implies(not space.discarded and packet_number > old(space.largest_received_packet), space.largest_received_time == now)",
+        "space.discarded == old(space.discarded)",
+    ],
+    prop=["C12"],
+)
+
+# C02: the reference for packet-number expansion only ever moves forward: max(previous, number of this authentic packet + 1)
+R.contract(
+    "QuicConnection.receive_datagram@expected_pn",
+    region={"anchor": "writes:expected_packet_number"},
+    params={"space": "QuicPacketSpace", "packet_number": "int"},
+    ensures=["space.expected_packet_number >= old(space.expected_packet_number)",
+             "space.expected_packet_number == max(old(space.expected_packet_number), packet_number + 1) or space.expected_packet_number == old(space.expected_packet_number)"],
+    prop=["C02"],
+)
+
+# C12: an acknowledged ACK frame prunes exactly the packet numbers up to the largest number THAT FRAME acknowledged; a
+# lost ACK frame prunes nothing (the ranges are acknowledged again)
+R.contract(
+    "QuicConnection._on_ack_delivery",
+    requires=["highest_acked >= 0"],
+    modifies=["space.ack_queue._RangeSet__ranges", "space.ack_queue.gview", "space.ack_queue.gidx"],
+    ensures=[
+        "implies(delivery == QuicDeliveryState.ACKED, forall(lambda x: space.ack_queue.gview[x] == (old(space.ack_queue.gview)[x] and not (0 <= x <= highest_acked))))",
+        "implies(delivery != QuicDeliveryState.ACKED, forall(lambda x: space.ack_queue.gview[x] == old(space.ack_queue.gview)[x]))",
+        "space.ack_at == old(space.ack_at)",
+    ],
+    prop=["C12"],
+)
